@@ -80,6 +80,20 @@ fn witnesses() -> Vec<Case> {
             vec![vec![Cmd::Drop("t1".into())], vec![Cmd::Drop("t1".into())]],
             vec![(1, "db.bound"), (2, "db.bound"), (1, "end"), (2, "end")],
         ),
+        // three overlapping DELETEs on rows of one row-set: X (session 3) scans; A deletes X's row
+        // and commits; B deletes ANOTHER row of the same row-set and commits; only then X takes the
+        // lock and commits — X must be refused (its row is already deleted), whatever the youngest
+        // delete vector of the row-set says
+        case(
+            "w-three-deleters",
+            vec![Cmd::Create("t1".into()), Cmd::Insert("t1".into(), vec![1, 2, 3])],
+            vec![
+                vec![Cmd::Delete("t1".into(), "eq".into(), 1)],
+                vec![Cmd::Delete("t1".into(), "eq".into(), 2)],
+                vec![Cmd::Delete("t1".into(), "eq".into(), 1)],
+            ],
+            vec![(3, "txn.lock.begin"), (1, "end"), (2, "end"), (3, "end")],
+        ),
         // purely sequential: DELETE, compaction, DROP, reopen
         case(
             "w-seq-dv-compact-drop",
@@ -97,7 +111,46 @@ fn witnesses() -> Vec<Case> {
     ]
 }
 
+/// Three or four DELETE sessions on rows of ONE row-set, with overlapping targets: a session's
+/// scan pins its snapshot before the session takes the table lock, so other DELETEs (of the same
+/// row and of other rows of the row-set) commit between a session's scan and its commit.
+fn gen_deleters_case(r: &mut Rng, k: usize) -> Case {
+    let n = r.range(3, 4) as usize;
+    let mut setup = vec![Cmd::Create("t1".into()), Cmd::Insert("t1".into(), vec![1, 2, 3])];
+    if r.chance(1, 3) {
+        setup.push(Cmd::Insert("t1".into(), vec![4, 5]));
+    }
+    let mut actors = vec![];
+    for i in 0..n {
+        // at least two sessions aim at row 1, one at another row of the same row-set
+        let key = match i {
+            0 => 1,
+            1 => *r.pick(&[2, 3]),
+            2 => 1,
+            _ => *r.pick(&[1, 2, 3, 4]),
+        };
+        let mut a = vec![Cmd::Delete("t1".into(), "eq".into(), key)];
+        if r.chance(1, 3) {
+            a.push(Cmd::Count("t1".into()));
+        }
+        actors.push(a);
+    }
+    Case {
+        id: format!("d{k}"),
+        gate: gates(),
+        setup,
+        actors,
+        sched: vec![],
+        rng: r.next() | 1,
+        sticky: *r.pick(&[0, 30, 60]),
+        script: vec![],
+    }
+}
+
 fn gen_case(r: &mut Rng, k: usize) -> Case {
+    if k % 5 == 4 {
+        return gen_deleters_case(r, k);
+    }
     // restricted = the fragment of `serializable_partial`: INSERT, SELECT count, CREATE/DROP of
     // distinct names; otherwise same-name DDL, DELETE and a compactor may join
     let restricted = r.chance(1, 2);
